@@ -29,6 +29,145 @@ type FuncResult struct {
 	Returns       int
 }
 
+// AlignClosures: contracts of anonymous functions are written under the function's ordinal in its parent
+// (F$1, F$2, ...). A NEW anonymous function in front of a specified one shifts the ordinals. When the contract
+// written for F$i mentions program names (captured variables, parameters, locals) that F$i does not have, and
+// exactly one other anonymous function of the same parent has them all, the contract is taken to mean that one:
+// it keeps the name F$i in every obligation, pin and scope, and the function now at ordinal i is named F$new<i>.
+func (ex *Exec) AlignClosures() {
+	ex.closureAlias = map[*ssa.Function]string{}
+	avail := func(f *ssa.Function) map[string]bool {
+		out := map[string]bool{}
+		for _, p := range f.Params {
+			out[p.Name()] = true
+		}
+		for _, fv := range f.FreeVars {
+			out[fv.Name()] = true
+		}
+		for _, b := range f.Blocks {
+			for _, in := range b.Instrs {
+				if a, ok := in.(*ssa.Alloc); ok && a.Comment != "" {
+					out[a.Comment] = true
+				}
+			}
+		}
+		return out
+	}
+	var visit func(parent *ssa.Function)
+	visit = func(parent *ssa.Function) {
+		if parent == nil || len(parent.AnonFuncs) == 0 {
+			return
+		}
+		defer func() {
+			for _, a := range parent.AnonFuncs {
+				visit(a)
+			}
+		}()
+		names := map[*ssa.Function]map[string]bool{}
+		all := map[string]bool{}
+		for _, a := range parent.AnonFuncs {
+			names[a] = avail(a)
+			for n := range names[a] {
+				all[n] = true
+			}
+		}
+		type want struct {
+			ct    *Contract
+			key   string
+			at    *ssa.Function
+			needs map[string]bool
+		}
+		var wants []*want
+		for _, a := range parent.AnonFuncs {
+			key := ex.FuncKey(a)
+			ct, ok := ex.Contracts[key]
+			if !ok {
+				continue
+			}
+			ids := map[string]bool{}
+			for _, cl := range ct.Requires {
+				exprIdents(cl.E, ids)
+			}
+			for _, cl := range ct.Ensures {
+				exprIdents(cl.E, ids)
+			}
+			for _, d := range ct.Defines {
+				exprIdents(d, ids)
+			}
+			declared := map[string]bool{}
+			for _, n := range ct.Params {
+				declared[n] = true
+			}
+			for _, n := range ct.Results {
+				declared[n] = true
+			}
+			needs := map[string]bool{}
+			for n := range ids {
+				if all[n] && !declared[n] {
+					needs[n] = true
+				}
+			}
+			wants = append(wants, &want{ct: ct, key: key, at: a, needs: needs})
+		}
+		has := func(f *ssa.Function, needs map[string]bool) bool {
+			for n := range needs {
+				if !names[f][n] {
+					return false
+				}
+			}
+			return true
+		}
+		taken := map[*ssa.Function]bool{}
+		for _, w := range wants {
+			if has(w.at, w.needs) {
+				taken[w.at] = true
+			}
+		}
+		for _, w := range wants {
+			if has(w.at, w.needs) || len(w.needs) == 0 {
+				continue
+			}
+			var cands []*ssa.Function
+			for _, a := range parent.AnonFuncs {
+				if a != w.at && !taken[a] && has(a, w.needs) {
+					cands = append(cands, a)
+				}
+			}
+			if len(cands) != 1 {
+				continue
+			}
+			g := cands[0]
+			taken[g] = true
+			oldName := ex.FuncKey(g)
+			ex.closureAlias[g] = w.key
+			if _, done := ex.closureAlias[w.at]; !done {
+				ex.closureAlias[w.at] = strings.Replace(w.key, "$", "$new", 1)
+			}
+			ex.AliasNotes = append(ex.AliasNotes, fmt.Sprintf("the contract written for %s is taken to mean %s (the anonymous functions of its parent were renumbered)", shortName(w.key), shortName(oldName)))
+		}
+	}
+	for _, p := range ex.Prog.AllPackages() {
+		if !strings.HasPrefix(p.Pkg.Path(), ex.ModulePath) {
+			continue
+		}
+		for _, m := range p.Members {
+			switch x := m.(type) {
+			case *ssa.Function:
+				visit(x)
+			case *ssa.Type:
+				for _, t := range []types.Type{x.Type(), types.NewPointer(x.Type())} {
+					ms := ex.Prog.MethodSets.MethodSet(t)
+					for i := 0; i < ms.Len(); i++ {
+						if fn := ex.Prog.MethodValue(ms.At(i)); fn != nil && fn.Synthetic == "" {
+							visit(fn)
+						}
+					}
+				}
+			}
+		}
+	}
+}
+
 // IndexFunctions builds the key -> function map for module functions (incl. closures, generic instances).
 func (ex *Exec) IndexFunctions() {
 	var addFn func(fn *ssa.Function)
